@@ -160,9 +160,25 @@ def build_doc(data, w, h, align, black1, eofb, rnd, omit_columns=False):
         d[b"Filter"] = [W.N("FlateDecode"), W.N("CCITTFaxDecode")]
         d[b"DecodeParms"] = [None, parms]
         payload = zlib.compress(data)
-    objs = {1: W.D(Type=W.N("Catalog"), Pages=W.R(2)), 2: W.D(Type=W.N("Pages"), Kids=[], Count=0),
-            5: W.Stream(d, payload)}
-    return W.build_pdf(objs), ["name+dict", "name+dict", "arrays", "flate-chain"][form]
+    objs = {1: W.D(Type=W.N("Catalog"), Pages=W.R(2)), 2: W.D(Type=W.N("Pages"), Kids=[], Count=0)}
+    tag = ["name+dict", "name+dict", "arrays", "flate-chain"][form]
+    ind = rnd.randrange(4)
+    if ind == 1:
+        # the parameter dictionary as an indirect object (as the whole /DecodeParms value or as an array element)
+        objs[6] = parms
+        if isinstance(d[b"DecodeParms"], list):
+            d[b"DecodeParms"] = [W.R(6) if x is parms else x for x in d[b"DecodeParms"]]
+        else:
+            d[b"DecodeParms"] = W.R(6)
+        tag += "+parms-indirect"
+    elif ind == 2:
+        objs[6] = d[b"DecodeParms"]
+        d[b"DecodeParms"] = W.R(6)
+        objs[7] = d[b"Filter"]
+        d[b"Filter"] = W.R(7)
+        tag += "+filter-and-parms-values-indirect"
+    objs[5] = W.Stream(d, payload)
+    return W.build_pdf(objs), tag
 
 
 def make_case(rows, w, choose, align, black1, eofb, doc_rnd=None, desc=None, precoded=None):
